@@ -79,8 +79,13 @@ def build_case(r, tier):
     sorted_mode = r.chance(0.3)
     if sorted_mode:
         # -s requires both inputs sorted lexically by the join key; records lacking the key are left out of sorted cases
-        left = sorted([x for x in left if any(k == lname for k, _ in x)], key=lambda rec: dict(rec)[lname])
-        right = sorted([x for x in right if any(k == rname for k, _ in x)], key=lambda rec: dict(rec)[rname])
+        def sort_keep_keyless(recs, name):
+            keyed = sorted([x for x in recs if any(k == name for k, _ in x)], key=lambda rec: dict(rec)[name])
+            for x in [x for x in recs if not any(k == name for k, _ in x)]:
+                keyed.insert(r.randint(0, len(keyed)), x)
+            return keyed
+        left = sort_keep_keyless(left, lname)
+        right = sort_keep_keyless(right, rname)
     elif r.chance(0.2):
         opts.append("-u")
     lfmt = r.choice(["dkvp", "dkvp", "json", "csvlite"])
@@ -137,6 +142,43 @@ def model(case):
             unp_r.append(rid)
     unp_l = {dict(rec)["lid"] for rec in case["left"]} - paired_l
     return paired, unp_l, unp_r
+
+
+def expected_records(case):
+    """Complete expected records by id: paired (lid, rid) -> ordered fields; unpaired left lid -> fields; unpaired right rid -> fields."""
+    ln, rn, on = case["lname"], case["rname"], case["oname"]
+    lp, rp = case["lp"] or "", case["rp"] or ""
+    L = {dict(rec)["lid"]: rec for rec in case["left"]}
+    R = {dict(rec)["rid"]: rec for rec in case["right"]}
+
+    def unpaired(rec, jname, prefix):
+        return [((on if k == jname else prefix + k), v) for k, v in rec]
+    exp = {"l": {lid: unpaired(rec, ln, lp) for lid, rec in L.items()}, "r": {rid: unpaired(rec, rn, rp) for rid, rec in R.items()}, "p": {}}
+    paired, _, _ = model(case)
+    for lid, rid in paired:
+        l, r = L[lid], R[rid]
+        rec = [(on, dict(l)[ln])] + [(lp + k, v) for k, v in l if k != ln] + [(rp + k, v) for k, v in r if k != rn]
+        exp["p"][(lid, rid)] = rec
+    return exp
+
+
+def content_ok(case, out, exp):
+    """Each output record must be exactly the expected composition (names, order, values)."""
+    for rec in out:
+        items = [(k, v if isinstance(v, str) else json.dumps(v)) for k, v in rec.items()]
+        lid = next((v for k, v in items if k.endswith("lid")), None)
+        rid = next((v for k, v in items if k.endswith("rid")), None)
+        if lid is not None and rid is not None:
+            want = exp["p"].get((lid, rid))
+        elif lid is not None:
+            want = exp["l"].get(lid)
+        else:
+            want = exp["r"].get(rid)
+        if want is None:
+            continue
+        if [(k, str(v)) for k, v in want] != items:
+            return {"got": items, "want": want}
+    return None
 
 
 def classify(case, out):
@@ -225,6 +267,10 @@ def evaluate(case, chk):
         # field-name order of paired records: join fields under output name, then left rest, then right rest
         if not case["np"] and out and not check_field_order(case, out):
             vd.add("paired-field-order-wrong", config=cfgs_)
+            break
+        bad = content_ok(case, out, expected_records(case))
+        if bad:
+            vd.add("record-composition-wrong", config=cfgs_, sorted_mode=case["sorted"], **bad)
             break
     return vd
 
